@@ -84,6 +84,7 @@ def cases(tier, seed):
     for i0 in range(0, len(tinputs), 12):
         out.append({"k": "text", "i0": i0, "i1": min(len(tinputs), i0 + 12), "tier": tier})
     out.append({"k": "plain"})
+    out.append({"k": "extra"})
     return out
 
 
@@ -199,6 +200,35 @@ def run_case(case, R):
             R.sample({"text_input": lab, "options": "fmt x delimiter x header x comments x target x spelling"})
         finally:
             shutil.rmtree(scratch, ignore_errors=True)
+    elif k == "extra":
+        specs = [sp for _, sp in space.wide_specs()] + [sp for _, sp in space.wide_array_specs()] + space.magnitude_specs()
+        for i, sp in enumerate(specs):
+            p = build_checked(sp)
+            redundant = any(not numpy.any(numpy.asarray(c)) and any(e) for e, c in zip(p.exponents, p.coefficients))
+            R.state(("extra", i))
+            for proto in (0, 2, pickle.HIGHEST_PROTOCOL):
+                R.tr()
+                try:
+                    q = pickle.loads(pickle.dumps(p, protocol=proto))
+                except Exception as err:  # noqa: BLE001
+                    R.fail("pickle", "exception", f"extra {i} {sp['n'][:3]}..: {type(err).__name__}: {err}", tags=["wide_or_magnitude"])
+                    continue
+                same_exact(R, f"extra {i} protocol {proto}", "pickle", p, q, sp, ["wide_or_magnitude"], redundant)
+            for op, f in (("copy.deepcopy", copy.deepcopy), (".copy()", lambda x: x.copy())):
+                R.tr()
+                same_exact(R, f"extra {i}", op, p, f(p), sp, ["wide_or_magnitude"], redundant)
+            if sp["d"] == "f8" and max(max(e) for e, _ in sp["t"]) < 60:
+                R.tr()
+                f = io.StringIO()
+                try:
+                    numpoly.savetxt(f, p)
+                    f.seek(0)
+                    q = numpoly.loadtxt(f)
+                except Exception as err:  # noqa: BLE001
+                    R.fail("savetxt/loadtxt", "exception", f"magnitudes {sp['t']}: {type(err).__name__}: {err}", tags=["wide_or_magnitude"])
+                    continue
+                if not isinstance(q, numpoly.ndpoly) or tuple(q.shape) != tuple(p.shape) or alpha(q) != model_of(sp):
+                    R.fail("savetxt/loadtxt", "wrong-value", f"magnitudes {sp['t']}: loaded {q!r}", tags=["wide_or_magnitude"])
     elif k == "plain":
         # a file without the numpoly header loads as a plain array
         for arr in (numpy.arange(6.0).reshape(2, 3), numpy.array([1.5, 2.5]), numpy.array([[7.0]])):
